@@ -196,6 +196,8 @@ func newMachine(initial []int) *machine {
 	}
 	m.sh = network.NewSimpleHTTPWithClientAndInterceptors(c, init...)
 	m.api = network.NewSimpleAPIWithSimpleHTTP("http://c18.test", m.sh)
+	// a non-nil DefaultHeader: interceptors' header changes must stay confined to the request they ran on
+	m.api.DefaultHeader = http.Header{"X-Default": {"d"}}
 	m.clients = append(m.clients, c)
 	m.clientStub = append(m.clientStub, 0)
 	return m
@@ -429,6 +431,13 @@ func (m *machine) request(o op, suffix string) (res result) {
 		for k, vs := range wantH {
 			if !reflect.DeepEqual(st.atTransp.Values(k), vs) {
 				res.fail(key("header-lost"), "%v: transport saw %s=%v, interceptors set %v", o, k, st.atTransp.Values(k), vs)
+				return
+			}
+		}
+		// ... and only the changes of the interceptors that ran on THIS request
+		for k, vs := range st.atTransp {
+			if strings.HasPrefix(k, "X-I") && wantH[k] == nil {
+				res.fail(key("header-of-unregistered-interceptor"), "%v: transport saw %s=%v although that interceptor is not registered (header changes of an earlier request leaked)", o, k, vs)
 				return
 			}
 		}
